@@ -228,7 +228,7 @@ func (g *gen) planPackages() {
 	nLocal := 1
 	if g.cfg.MaxPackages > 1 {
 		// often 2-3
-		w := []int{18, 50, 32}[:g.cfg.MaxPackages]
+		w := []int{18, 54, 28}[:g.cfg.MaxPackages]
 		nLocal = 1 + g.weighted(w)
 		if g.large {
 			nLocal = g.cfg.MaxPackages
